@@ -50,7 +50,7 @@ class C16(Prop):
     id = "C16"
     rule = ("(a) RFIMask composition on synthetic channel-statistics vectors (planted outliers, all-equal vectors), "
             "thresholds, both methods, frequency-range lists (empty, overlapping, outside the band), custom functions, "
-            "every order of apply_* calls; (b) clean_rfi on tiny real files (depths 1..32, gulps incl. non-divisible): "
+            "sequences of 1-6 apply_* calls where each call carries its own arguments (so component masks get overwritten); (b) clean_rfi on tiny real files (depths 1..32, gulps incl. non-divisible): "
             "masked channels constant, all other samples bit-identical; (c) mask file round trip incl. sky position. "
             "Non-trivial = at least one masked and one unmasked channel; distinct by full case.")
     assumptions = ["outlier detection itself (double-MAD / IQRM z-scores) is compared with an independent NumPy "
@@ -70,17 +70,38 @@ class C16(Prop):
                     v[rng.randrange(C)] += rng.choice((30, -25, 100))
             return v
         fmin, fmax = FCH1 + FOFF * (C - 1), FCH1
-        ranges = []
-        for _ in range(rng.choice((0, 1, 2, 3))):
-            a = rng.uniform(fmin - 10, fmax + 10)
-            ranges.append([a, a + rng.choice((0.0, 2.0, 7.5, 30.0))])
-        if rng.random() < 0.2 and C > 3:
-            f = FCH1 + FOFF * rng.randrange(C)
-            ranges.append([f, f])       # a closed range holding exactly one channel centre
-        order = rng.sample(["mask", "method", "funcn"], k=rng.randint(1, 3))
+
+        def mk_ranges():
+            ranges = []
+            for _ in range(rng.choice((0, 1, 2, 3))):
+                a = rng.uniform(fmin - 10, fmax + 10)
+                ranges.append([a, a + rng.choice((0.0, 2.0, 7.5, 30.0))])
+            if rng.random() < 0.2 and C > 3:
+                f = FCH1 + FOFF * rng.randrange(C)
+                ranges.append([f, f])       # a closed range holding exactly one channel centre
+            return ranges
+
+        def mk_step(op):
+            if op == "mask":
+                return ["mask", mk_ranges()]
+            if op == "method":
+                return ["method", rng.choice(("mad", "iqrm"))]
+            return ["funcn", sorted(rng.sample(range(C), k=rng.randint(0, 3)))]
+
+        # every step carries its own arguments: a later apply_mask / apply_method / apply_funcn with different
+        # arguments overwrites the component mask, and must still only ever add channels to chan_mask
+        if rng.random() < 0.5:
+            ops = rng.sample(["mask", "method", "funcn"], k=rng.randint(1, 3))
+            ops = ops + rng.sample(ops, k=1)
+        else:
+            ops = [rng.choice(("mask", "method", "funcn")) for _ in range(rng.randint(2, 6))]
+        steps = [mk_step(op) for op in ops]
+        if rng.random() < 0.3:           # the old shape: the same arguments every time an op recurs
+            first = {}
+            steps = [first.setdefault(st[0], st) for st in steps]
         return {"kind": "compose", "C": C, "var": vec(), "skew": vec(), "kurt": vec(), "thr": rng.choice((2.0, 3.0, 5.0)),
-                "method": rng.choice(("mad", "iqrm")), "ranges": ranges, "order": order + rng.sample(order, k=1),
-                "custom": sorted(rng.sample(range(C), k=rng.randint(0, 3)))}
+                "steps": steps, "method": next((st[1] for st in steps if st[0] == "method"), "mad"),
+                "ranges": next((st[1] for st in steps if st[0] == "mask"), [])}
 
     def _clean(self, rng):
         nbits = rng.choice((1, 2, 4, 8, 32))
@@ -121,21 +142,24 @@ class C16(Prop):
         try:
             if case["kind"] == "compose":
                 m = self._mk_mask(case)
-                steps = []
-                cust = np.zeros(case["C"], dtype=bool)
-                cust[case["custom"]] = True
-                for op in case["order"]:
-                    if op == "mask":
-                        m.apply_mask([tuple(r) for r in case["ranges"]])
-                    elif op == "method":
-                        m.apply_method(case["method"])
-                    else:
-                        m.apply_funcn(lambda cur: cust)
-                    steps.append({k: [bool(v) for v in getattr(m, k)] for k in ("chan_mask", "user_mask", "stats_mask", "custom_mask")})
                 from sigpyproc.core import rfi as R
-                fn = R.double_mad_mask if case["method"] == "mad" else R.iqrm_mask
-                mm = [[bool(v) for v in fn(np.array(case[k], dtype=np.float32), case["thr"])] for k in ("var", "skew", "kurt")]
-                return {"steps": steps, "freqs": [float(v) for v in m.header.chan_freqs], "method_masks": mm}
+                steps = []
+                for op, arg in case["steps"]:
+                    rec = {}
+                    if op == "mask":
+                        m.apply_mask([tuple(r) for r in arg])
+                    elif op == "method":
+                        m.apply_method(arg)
+                        fn = R.double_mad_mask if arg == "mad" else R.iqrm_mask
+                        rec["method_masks"] = [[bool(v) for v in fn(np.array(case[k], dtype=np.float32), case["thr"])]
+                                               for k in ("var", "skew", "kurt")]
+                    else:
+                        cust = np.zeros(case["C"], dtype=bool)
+                        cust[arg] = True
+                        m.apply_funcn(lambda cur, cust=cust: cust)
+                    rec.update({k: [bool(v) for v in getattr(m, k)] for k in ("chan_mask", "user_mask", "stats_mask", "custom_mask")})
+                    steps.append(rec)
+                return {"steps": steps, "freqs": [float(v) for v in m.header.chan_freqs]}
             if case["kind"] == "clean":
                 return self._obs_clean(case)
             return self._obs_round(case)
@@ -205,27 +229,28 @@ class C16(Prop):
             C = case["C"]
             prev = [False] * C
             user = stats = cust = [False] * C
-            fm = ref_doublemad_mask if case["method"] == "mad" else ref_iqrm_mask
-            want_stats = list(np.logical_or.reduce([fm(case[k], case["thr"]) for k in ("var", "skew", "kurt")]))
-            for k, (op, st) in enumerate(zip(case["order"], obs["steps"])):
+            for k, ((op, arg), st) in enumerate(zip(case["steps"], obs["steps"])):
                 if op == "mask":
-                    user = self._user(obs["freqs"], case["ranges"])
+                    user = self._user(obs["freqs"], arg)
                     if st["user_mask"] != user:
-                        return f"user mask {st['user_mask']} != channels whose centre lies in {case['ranges']}"
+                        return f"user mask {st['user_mask']} != channels whose centre lies in {arg}"
                 elif op == "method":
-                    stats = [bool(v) for v in want_stats]
+                    fm = ref_doublemad_mask if arg == "mad" else ref_iqrm_mask
+                    stats = [bool(v) for v in np.logical_or.reduce([fm(case[q], case["thr"]) for q in ("var", "skew", "kurt")])]
                     if st["stats_mask"] != stats:
                         bad = [i for i in range(C) if st["stats_mask"][i] != stats[i]]
-                        return f"statistics mask ({case['method']}, thr {case['thr']}) differs from the definition at channels {bad[:6]}"
+                        return f"statistics mask ({arg}, thr {case['thr']}) differs from the definition at channels {bad[:6]}"
                 else:
-                    cust = [i in case["custom"] for i in range(C)]
+                    cust = [i in arg for i in range(C)]
                     if st["custom_mask"] != cust:
                         return "custom mask is not what the custom function returned"
+                # the union of everything applied so far (not only of the *current* component masks)
                 want = [a or b or c or p for a, b, c, p in zip(user, stats, cust, prev)]
-                if st["chan_mask"] != want:
-                    return f"after {case['order'][:k + 1]} the channel mask is not the union of the masks applied so far"
                 if any(p and not q for p, q in zip(prev, st["chan_mask"])):
-                    return "applying a further mask removed a channel"
+                    gone = [i for i in range(C) if prev[i] and not st["chan_mask"][i]]
+                    return f"step {k} ({op} {arg}) removed previously masked channels {gone} (steps {case['steps'][:k + 1]})"
+                if st["chan_mask"] != want:
+                    return f"after {case['steps'][:k + 1]} the channel mask is not the union of the masks applied so far"
                 prev = st["chan_mask"]
             return None
         if case["kind"] == "clean":
@@ -264,14 +289,14 @@ class C16(Prop):
             return []
         q = lambda v: (lambda f: f"{f.numerator}/{f.denominator}")(Fraction(float(v)))   # noqa: E731
         C = case["C"]
-        toks = [f"C16 trace {C}", " ".join(q(f) for f in obs["freqs"]), str(len(case["order"]))]
-        for op in case["order"]:
+        toks = [f"C16 trace {C}", " ".join(q(f) for f in obs["freqs"]), str(len(case["steps"]))]
+        for (op, arg), st in zip(case["steps"], obs["steps"]):
             if op == "mask":
-                toks.append(f"m {len(case['ranges'])} " + " ".join(f"{q(a)} {q(b)}" for a, b in case["ranges"]))
+                toks.append(f"m {len(arg)} " + " ".join(f"{q(a)} {q(b)}" for a, b in arg))
             elif op == "method":
-                toks.append("s " + " ".join("1" if b else "0" for m in obs["method_masks"] for b in m))
+                toks.append("s " + " ".join("1" if b else "0" for m in st["method_masks"] for b in m))
             else:
-                toks.append("c " + " ".join("1" if i in case["custom"] else "0" for i in range(C)))
+                toks.append("c " + " ".join("1" if i in arg else "0" for i in range(C)))
         return [" ".join(t for t in toks if t)]
 
     def model_compare(self, case, obs, answers):
@@ -283,7 +308,7 @@ class C16(Prop):
         for k, (p, st) in enumerate(zip(parts, obs["steps"])):
             got = " ".join("".join("1" if b else "0" for b in st[f]) for f in ("chan_mask", "user_mask", "stats_mask", "custom_mask"))
             if got != p:
-                return f"after step {k} ({case['order'][k]}): impl {got} vs model {p}"
+                return f"after step {k} ({case['steps'][k]}): impl {got} vs model {p}"
         return None
 
     def regime(self, case, obs):
